@@ -49,7 +49,7 @@ READONLY_METHODS = {
 }
 PARAM_ATTRS = {
     "_means", "_variances", "_weights", "means", "variances", "weights", "centroids_", "_U", "_V", "_D", "U", "V", "D", "T", "sigma",
-    "input_subtract", "_log_weights", "_g_norms",
+    "input_subtract", "_log_weights", "_g_norms", "variance_thresholds", "_variance_thresholds",
 }
 CTOR_ROOTS = {"gmm:GMMMachine.__init__", "ivector:IVectorMachine.__init__", "factor_analysis:FactorAnalysisBase.__init__"}
 
